@@ -216,10 +216,15 @@ func main() {
 		}
 		for _, rel := range byDir[d] {
 			f := fileByRel[rel]
+			j := jobs[rel]
 			if f == nil {
+				if j.maprange && !j.instr && !j.osRw && len(seamsByFile[rel]) == 0 {
+					// picked up by a package glob but excluded by build
+					// constraints: nothing to do
+					continue
+				}
 				die("file %s is not part of its package under the current build constraints", rel)
 			}
-			j := jobs[rel]
 			rw := &rewriter{fset: fset, info: info, file: filepath.Base(rel), stats: stats}
 			if j.osRw {
 				if !rewriteImport(f, "os", simfsPath, "os") {
